@@ -1,3 +1,4 @@
+import T4V.Model.Inline
 import T4V.Sexp
 import T4V.Model.Post
 /-! Wire encoding of Layer-B model inputs/outputs (S-expressions). -/
@@ -128,5 +129,18 @@ def runComplement (s : Sexp) : String :=
             | .ok g' =>
               go ks (cs.map fun x => if x.id == k then { x with geom := g' } else x) (s!"(cell {k} {encodeGeom g'})" :: acc)
     go (cells.map (·.id)) cells []
+
+/-- `(inline (max X) (cells (cell id univ geom)…))` → every cell's geometry after `inline_cells` -/
+def runInline (s : Sexp) : String :=
+  let mx : Option Float := (s.field? "max").bind fun m => match m.args with | [.atom x] => parseFloat? x | _ => none
+  let r : Option (List (Nat × Nat × Geom)) := (s.field? "cells").bind fun cs => cs.args.mapM fun c => match c with
+      | .list [.atom "cell", .atom id, .atom u, g] => do pure (← id.toNat?, ← u.toNat?, ← decodeGeom g)
+      | _ => none
+  match mx, r with
+  | some m, some cells =>
+      match inlineAll cells m with
+      | none => "ok error"
+      | some out => "ok " ++ " ".intercalate (out.map fun (k, g) => s!"(cell {k} {encodeGeom g})")
+  | _, _ => "err bad-request"
 
 end T4V
